@@ -762,3 +762,76 @@ def _native_tables(tier="quick", seed=0):
 
 
 JOBS = {"C14.native_tables": _native_tables}
+
+
+# ---------------------------------------------------------------------------------------------------------
+# the coordinates the merge / split code computes with: a row's offset among the rows, a cell's offset among the cells
+
+
+def _replay_idx(model, rec):
+    from pptx.oxml import parse_xml
+    from pptx.oxml.ns import nsdecls
+
+    for pr in ("<a:tblPr/>", ""):
+        tbl = parse_xml("<a:tbl %s>%s<a:tblGrid><a:gridCol w='1'/><a:gridCol w='1'/></a:tblGrid>%s</a:tbl>" % (
+            nsdecls("a"), pr, "<a:tr h='1'><a:tc/><a:tc/><a:extLst/></a:tr>" * 3))
+        for i, tr in enumerate(tbl.tr_lst):
+            if tr.row_idx != i:
+                return {"confirmed": True, "witness_class": "table-index", "detail": "a:tbl %s a:tblPr: row %d reports row_idx %r" % ("with" if pr else "without", i, tr.row_idx)}
+            for j, tc in enumerate(tr.tc_lst):
+                if tc.col_idx != j:
+                    return {"confirmed": True, "witness_class": "table-index", "detail": "cell %d of row %d reports col_idx %r" % (j, i, tc.col_idx)}
+    return {"confirmed": False, "detail": "row_idx / col_idx are the offsets among rows / cells, with and without a:tblPr"}
+
+
+def _make_row_idx(with_pr, n, j):
+    @contract("C14", "C14.oxml.table.CT_TableRow.row_idx[%s a:tblPr, row %d of %d]" % ("with" if with_pr else "without", j, n), replay=_replay_idx)
+    def body(c):
+        """a row's row_idx is its offset among the a:tr children of the table, whatever precedes the rows (a:tblPr is optional; shapes enumerated)."""
+        from pptx.oxml.table import CT_TableRow
+
+        rows = []
+        tbl = SObj(None, "tbl", __external__=True)
+        for i in range(n):
+            rows.append(SObj(CT_TableRow, "tr%d" % i, getparent=GhostFn(lambda it, a, k: tbl, "getparent")))
+        lead = ([SObj(None, "tblPr", __external__=True)] if with_pr else []) + [SObj(None, "tblGrid", __external__=True)]
+        kids = lead + rows
+        tbl.fields["tr_lst"] = list(rows)
+        tbl.fields["index"] = GhostFn(lambda it, a, k: next(i for i, e in enumerate(kids) if e is a[0]), "lxml.index")
+        tbl.fields["__len__"] = GhostFn(lambda it, a, k: len(kids), "len")
+        out = c.getattr(rows[j], "row_idx")
+        if out.raised:
+            c.fails("never_raises", "raised %s" % out.exc)
+            return
+        c.ensures("post.offset_among_rows", out.value == j)
+
+    return body
+
+
+def _make_col_idx(n, j, with_ext):
+    @contract("C14", "C14.oxml.table.CT_TableCell.col_idx[cell %d of %d%s]" % (j, n, ", a:extLst follows" if with_ext else ""), replay=_replay_idx)
+    def body(c):
+        """a cell's col_idx is its offset among the a:tc children of its row (the schema puts the cells first; shapes enumerated)."""
+        from pptx.oxml.table import CT_TableCell
+
+        tr = SObj(None, "tr", __external__=True)
+        cells = [SObj(CT_TableCell, "tc%d" % i, getparent=GhostFn(lambda it, a, k: tr, "getparent")) for i in range(n)]
+        kids = cells + ([SObj(None, "extLst", __external__=True)] if with_ext else [])
+        tr.fields["tc_lst"] = list(cells)
+        tr.fields["index"] = GhostFn(lambda it, a, k: next(i for i, e in enumerate(kids) if e is a[0]), "lxml.index")
+        out = c.getattr(cells[j], "col_idx")
+        if out.raised:
+            c.fails("never_raises", "raised %s" % out.exc)
+            return
+        c.ensures("post.offset_among_cells", out.value == j)
+
+    return body
+
+
+for _pr in (True, False):
+    for _n in (1, 3):
+        for _j in sorted({0, _n - 1}):
+            _make_row_idx(_pr, _n, _j)
+for _n in (1, 3):
+    for _j in sorted({0, _n - 1}):
+        _make_col_idx(_n, _j, _j == 0)
